@@ -261,6 +261,7 @@ func runC18ProdPair(c *harness.Case, proxyOn bool, peerTLS string) {
 			tail, terr := A.brainGRPC.Create(ctx, &pb.CreateRequest{Key: []byte(P + "/pp/after-watch"), Value: []byte("w")})
 			var got []int64
 			cancelled := false
+			headerBehind := ""
 			for i := 0; i < 40 && !cancelled; i++ {
 				time.Sleep(50 * time.Millisecond)
 				got = got[:0]
@@ -270,6 +271,9 @@ func runC18ProdPair(c *harness.Case, proxyOn bool, peerTLS string) {
 					}
 					for _, ev := range m.Events {
 						got = append(got, ev.Kv.ModRevision)
+						if m.Header.GetRevision() < ev.Kv.ModRevision {
+							headerBehind = fmt.Sprintf("a watch response with header revision %d carries an event with mod revision %d", m.Header.GetRevision(), ev.Kv.ModRevision)
+						}
 					}
 				}
 				select {
@@ -283,6 +287,10 @@ func runC18ProdPair(c *harness.Case, proxyOn bool, peerTLS string) {
 			}
 			wcancel()
 			note("list at %d through the follower, leader writes at %v, watch from %d through the follower delivered revisions %v (cancelled=%v)", R, revs, R+1, got, cancelled)
+			if headerBehind != "" {
+				c.Violatef("C18 forwarded-watch-header-behind-its-events path=production-pair", wit(), "watch through the follower: %s (a response names a revision at which its own events do not exist yet)", headerBehind)
+				return
+			}
 			if len(got) > 0 && got[0] != revs[0] {
 				c.Violatef("C18 forwarded-watch-does-not-start-at-the-requested-revision path=production-pair", wit(), "a watch from revision %d sent to the follower first delivered revision %d; the first change at or after %d is revision %d (the stream went on past changes it did not deliver)", R+1, got[0], R+1, revs[0])
 				return
